@@ -342,6 +342,7 @@ type FuncResult struct {
 	Plan        *ReplayPlan
 	EntryEnv    *Env
 	AllTerms    []NamedTerm
+	PostEnv     *Env // entry values + call names + locals: for known-finding regions
 }
 
 func (v *Verifier) wfAssume(c *Ctx, val Val) Term {
@@ -510,6 +511,7 @@ func (v *Verifier) VerifyFunc(fc *FuncContract) (res *FuncResult) {
 		}
 	}
 	ex.bindDebugNames(post, nil)
+	res.PostEnv = post
 	for ci, ca := range fc.CallAsserts {
 		if !ex.assertSeen[fmt.Sprintf("%d %s", ca.Ordinal, ca.Callee)] && !ca.Assume {
 			// the call site the assertion is attached to does not exist
